@@ -522,24 +522,35 @@ func runRound(c cfg, sample bool) {
 			res.DupKeys++
 			rs := byKey[k]
 			class := "unexplained"
-			ovCR, conc := false, false
+			ovCR, conc, concDel := false, false, false
 			var ex string
 			for i := range rs {
-				if rs[i].del {
-					continue
-				}
-				for _, s := range allSpans {
-					if overlap(rs[i].t0, rs[i].t1, s.t0, s.t1) {
-						ovCR = true
-						ex = fmt.Sprintf("Set by writer %d during [%d,%d]ns overlaps %s [%d,%d]ns", rs[i].w, rs[i].t0, rs[i].t1, s.kind, s.t0, s.t1)
+				if !rs[i].del {
+					for _, s := range allSpans {
+						if overlap(rs[i].t0, rs[i].t1, s.t0, s.t1) {
+							ovCR = true
+							ex = fmt.Sprintf("Set by writer %d during [%d,%d]ns overlaps %s [%d,%d]ns", rs[i].w, rs[i].t0, rs[i].t1, s.kind, s.t0, s.t1)
+						}
 					}
 				}
-				for j := i + 1; j < len(rs) && !conc; j++ {
-					if !rs[j].del && rs[i].w != rs[j].w && overlap(rs[i].t0, rs[i].t1, rs[j].t0, rs[j].t1) {
-						conc = true
-						if ex == "" {
+				for j := i + 1; j < len(rs); j++ {
+					if rs[i].w == rs[j].w || (rs[i].del && rs[j].del) || !overlap(rs[i].t0, rs[i].t1, rs[j].t0, rs[j].t1) {
+						continue
+					}
+					name := func(r opRec) string {
+						if r.del {
+							return "Delete"
+						}
+						return "Set"
+					}
+					if !rs[i].del && !rs[j].del {
+						if !conc {
 							ex = fmt.Sprintf("Set by writer %d during [%d,%d]ns overlaps Set by writer %d during [%d,%d]ns", rs[i].w, rs[i].t0, rs[i].t1, rs[j].w, rs[j].t0, rs[j].t1)
 						}
+						conc = true
+					} else if !conc && !concDel {
+						concDel = true
+						ex = fmt.Sprintf("%s by writer %d during [%d,%d]ns overlaps %s by writer %d during [%d,%d]ns", name(rs[i]), rs[i].w, rs[i].t0, rs[i].t1, name(rs[j]), rs[j].w, rs[j].t0, rs[j].t1)
 					}
 				}
 			}
@@ -547,6 +558,8 @@ func runRound(c cfg, sample bool) {
 				class = "set-overlaps-clear-or-resize"
 			} else if conc {
 				class = "two-concurrent-sets-of-the-key"
+			} else if concDel {
+				class = "set-concurrent-with-delete-of-the-key"
 			}
 			F("dup", class, fmt.Sprintf("after all calls returned and a Sweep, Keys() contains key %d %d times (Len()=%d); history: %s", k, cnt[k], cache.Len(), ex))
 		}
